@@ -289,6 +289,257 @@ func scenario(mf bool, prefix []refstream.Op, free int, label string) *mc.Scenar
 	return &mc.Scenario{Name: name, Body: body, Check: check, Model: sched.DataFree, NoCache: true}
 }
 
+// ---- sequences with a write parked inside the transport ----
+
+// stallWriter hands every Write to the log at once and then parks it while stalled.
+type stallWriter struct {
+	mon     vs.Monitor
+	buf     []byte
+	stalled bool
+}
+
+func (w *stallWriter) Write(p []byte) (int, error) {
+	w.buf = append(w.buf, p...) // the bytes are on the transport from the moment the call begins
+	w.mon.Do("writer.Write", func() bool { return !w.stalled }, func() {})
+	return len(p), nil
+}
+
+// an 11-byte message is six frames at split size 2
+const msgFrames = (enc.MinPayload + 1) / 2
+
+var parkedW = []refstream.Op{refstream.Send, refstream.CloseSend, refstream.Close, refstream.SendError, refstream.SendCancel}
+var parkedX = []refstream.Op{"none", refstream.Cancel, refstream.SendCancel, refstream.PCloseSend, refstream.PClose, refstream.PError, refstream.PCancel, refstream.PInvoke, refstream.PUnk, refstream.PUnkCtl, refstream.PForeign}
+var parkedD = []refstream.Op{"none", refstream.Send, refstream.Flush, refstream.CloseSend, refstream.Close, refstream.SendError}
+var parkedPrefix = []refstream.Op{"none", refstream.PCloseSend, refstream.CloseSend}
+
+// parkedScenario: [prefix] ; stall ; W parks in its first transport write ; up to two calls that do
+// not need the write side (X) ; optionally one call that queues behind it (D) ; release.
+func parkedScenario() *mc.Scenario {
+	body := func() {
+		rn := &run{}
+		sched.Cur().State()["run"] = rn
+		w := &stallWriter{}
+		st := drpcstream.NewWithOptions(context.Background(), sid, drpcwire.NewWriter(w, 1), drpcstream.Options{SplitSize: 2})
+		m := &refstream.Model{}
+		parsed := 0
+		var lastID refwire.ID
+		fail := func(f string, a ...any) {
+			rn.fails = append(rn.fails, fmt.Sprintf("after [%s]: ", strings.Join(rn.trace, " "))+fmt.Sprintf(f, a...))
+		}
+		// frames appended since the last look: returns (kinds, all done?)
+		newFrames := func() []refwire.Frame {
+			frames, rest, res := refwire.ParseAll(w.buf[parsed:])
+			if res != refwire.OK || len(rest) != 0 {
+				fail("bytes on the writer are not whole frames")
+				return nil
+			}
+			parsed = len(w.buf)
+			for _, f := range frames {
+				if f.ID.Less(lastID) || f.ID.Stream != sid {
+					fail("ids on the wire go backwards: %v after %v", f.ID, lastID)
+				}
+				lastID = f.ID
+			}
+			return frames
+		}
+		signals := func() bool {
+			if got := st.IsTerminated(); got != m.Terminated() {
+				fail("Terminated=%v, the state machine says %v", got, m.Terminated())
+				return false
+			}
+			if got := st.IsFinished(); got != m.Finished() {
+				fail("Finished=%v, the state machine says %v (terminated=%v, a call is parked in the transport=%v)", got, m.Finished(), m.Terminated(), m.WriterBusy)
+				return false
+			}
+			if got := vs.IsClosed(st.Context().Done()); got != m.Finished() {
+				fail("Context().Done() closed=%v, the state machine says %v", got, m.Finished())
+				return false
+			}
+			return true
+		}
+		calls := 0
+		start := func(op refstream.Op) *callRes {
+			r := &callRes{op: op}
+			c := calls
+			calls++
+			rn.trace = append(rn.trace, string(op))
+			vs.Go(string(op), func() { perform(st, op, c, r) })
+			sched.Quiesce()
+			return r
+		}
+		// prefix, un-stalled, through the plain model
+		if p := parkedPrefix[sched.Choose(len(parkedPrefix), "prefix")]; p != "none" {
+			pred := m.Step(p)
+			r := start(p)
+			if !r.returned || len(pred.Returned) != 1 || !classOK(pred.Returned[0].Class, r) {
+				fail("prefix %s: returned=%v err=%v", p, r.returned, r.err)
+				return
+			}
+			newFrames()
+		}
+		w.mon.Do("stall", nil, func() { w.stalled = true })
+		rn.trace = append(rn.trace, "<stall>")
+		wop := parkedW[sched.Choose(len(parkedW), "W")]
+		wasSend := m.SendClass()
+		wasTerm := m.Terminated()
+		var wpred refstream.Prediction
+		if wop != refstream.Send {
+			wpred = m.Step(wop) // terminal calls change the state first and then write
+		}
+		wr := start(wop)
+		writes := (wop == refstream.Send && wasSend == "") || (wop != refstream.Send && len(wpred.Emits) > 0)
+		if !writes {
+			// nothing to write in this state: the call must simply return what the state machine says
+			want := wasSend
+			if wop != refstream.Send {
+				want = wpred.Returned[0].Class
+			}
+			if !wr.returned || !classOK(want, wr) {
+				fail("%s (no write needed) returned=%v err=%v flag=%v, want %s", wop, wr.returned, wr.err, wr.flag, want)
+			}
+			if n := len(newFrames()); n != 0 {
+				fail("%s emitted %d frames in a state where it must not write", wop, n)
+			}
+			return
+		}
+		_ = wasTerm
+		if wr.returned {
+			fail("%s returned although the transport is stalled", wop)
+			return
+		}
+		m.WriterBusy = true
+		first := newFrames()
+		if len(first) != 1 {
+			fail("%s handed %d frames to the stalled transport, want its first one", wop, len(first))
+			return
+		}
+		if !signals() {
+			return
+		}
+		// calls that do not need the write side
+		for i := 0; i < 2; i++ {
+			x := parkedX[sched.Choose(len(parkedX), "X")]
+			if x == "none" {
+				continue
+			}
+			if x == refstream.SendCancel {
+				r := start(x)
+				if !r.returned || !r.flag || r.err != nil {
+					fail("SendCancel while a call is parked in the transport: returned=%v busy=%v err=%v, want busy", r.returned, r.flag, r.err)
+					return
+				}
+			} else {
+				pred := m.Step(x)
+				r := start(x)
+				if !r.returned {
+					fail("%s blocks while another call is parked in the transport", x)
+					return
+				}
+				if len(pred.Returned) != 1 || !classOK(pred.Returned[0].Class, r) {
+					fail("%s returned err=%v flag=%v, the state machine says %v", x, r.err, r.flag, pred.Returned)
+					return
+				}
+			}
+			if n := len(newFrames()); n != 0 {
+				fail("%s emitted %d frames", x, n)
+				return
+			}
+			if !signals() {
+				return
+			}
+		}
+		// one call that queues behind the parked one
+		d := parkedD[sched.Choose(len(parkedD), "D")]
+		var dr *callRes
+		if d != "none" {
+			dr = start(d)
+			willWait := true
+			switch d {
+			case refstream.CloseSend:
+				willWait = m.SendClass() == "" && !m.Terminated()
+			case refstream.Close, refstream.SendError:
+				willWait = !m.Terminated()
+			}
+			if willWait && dr.returned {
+				fail("%s returned although the write side is held by the parked call", d)
+				return
+			}
+			if !willWait && !dr.returned {
+				fail("%s blocks although it has nothing to write in this state", d)
+				return
+			}
+			if !willWait {
+				pred := m.Step(d)
+				if !classOK(pred.Returned[0].Class, dr) {
+					fail("%s returned err=%v, the state machine says %s", d, dr.err, pred.Returned[0].Class)
+				}
+				dr = nil
+			}
+		}
+		// release: the parked call completes first
+		w.mon.Do("release", nil, func() { w.stalled = false })
+		rn.trace = append(rn.trace, "<release>")
+		sched.Quiesce()
+		m.WriterBusy = false
+		if !wr.returned {
+			fail("%s never returned after the transport was released; blocked=%v", wop, sched.BlockedNow())
+			return
+		}
+		rest := newFrames()
+		wantRest, wantClass := 0, refstream.Nil
+		if wop == refstream.Send {
+			if c := m.SendClass(); c != "" {
+				wantClass = c // the stream's send side ended while the message was in flight: stop, report it
+			} else {
+				wantRest = msgFrames - 1 // the remaining frames of the message
+			}
+		} else if c := m.CancelClass(); c != "" {
+			wantClass = c
+		}
+		if wop == refstream.SendCancel && wantClass == refstream.Nil {
+			wantClass = refstream.False
+		}
+		var dpred refstream.Prediction
+		if dr != nil {
+			dpred = m.Step(d)
+			wantRest += len(dpred.Emits)
+			if d == refstream.Send && len(dpred.Emits) == 1 {
+				wantRest += msgFrames - 1 // a message is several frames at split size 2
+			}
+		}
+		if wop == refstream.SendCancel && wantClass != refstream.False {
+			if wr.flag || !classOK(wantClass, &callRes{err: wr.err}) {
+				fail("%s returned busy=%v err=%v, the state machine says %s", wop, wr.flag, wr.err, wantClass)
+			}
+		} else if !classOK(wantClass, wr) {
+			fail("%s returned err=%v flag=%v after the release, the state machine says %s", wop, wr.err, wr.flag, wantClass)
+		}
+		if len(rest) != wantRest {
+			fail("%d frames emitted after the release (%v), the state machine says %d: nothing may be emitted once the stream has terminated", len(rest), rest, wantRest)
+		}
+		if dr != nil {
+			if !dr.returned {
+				fail("%s never returned after the release", d)
+			} else if !classOK(dpred.Returned[0].Class, dr) {
+				fail("%s returned err=%v after the release, the state machine says %s", d, dr.err, dpred.Returned[0].Class)
+			}
+		}
+		signals()
+		sched.Observe(m.Key())
+	}
+	check := func(e *sched.Exec) string {
+		if len(e.Panics) > 0 {
+			return "panic: " + e.Panics[0]
+		}
+		rn, _ := e.State()["run"].(*run)
+		if rn != nil && len(rn.fails) > 0 {
+			return rn.fails[0]
+		}
+		return ""
+	}
+	return &mc.Scenario{Name: "stream[write parked in the transport: prefix ; stall ; W ; X X ; D ; release]", Body: body, Check: check, Model: sched.DataFree, NoCache: true}
+}
+
 // modelStates explores the model alone (breadth first) and returns the shortest path to every state.
 func modelStates(mf bool, depth int) [][]refstream.Op {
 	type node struct {
@@ -345,6 +596,7 @@ func plans(tier string) []mc.Plan {
 			ps = append(ps, mc.Plan{Scen: scenario(mf, p, free, label(p)), Bounds: []int{0}})
 		}
 	}
+	ps = append(ps, mc.Plan{Scen: parkedScenario(), Bounds: []int{0}, Split: true})
 	if tier == "thorough" {
 		// one scheduling deviation inside every sequence of length 3
 		ps = append(ps, mc.Plan{Scen: scenario(false, nil, 3, "all sequences (1 scheduling deviation)"), Bounds: []int{1}, Split: true})
